@@ -3,6 +3,7 @@
  *
  *   usage: h_c16 <scratch dir> <model dir (…/model/en-us)> <raw audio>   < ops
  *          h_c16 phones <model dir>            prints the CI phone table (hex names) and exits
+ *          h_c16 mdefdump <model dir> <file>   writes cd_tree / filler flags / ssid table for the driver
  *
  * ops (strings in hex, "-" = empty):
  *   mdef <sil> <name>...                check that the CI phone table is what the op file assumes    -> mdef ok|mdef MISMATCH
@@ -18,6 +19,11 @@
  *   chain <word>                    alt chain from the word by dict_nextalt, dict_basestr         -> c <id,..> b=<hex> | c none
  *   base <word>                     dict_word2basestr on a copy                                   -> b <ret> <hex>
  *   dump                            whole dictionary                                              -> d n= max= fs= fe= | i:word:pron:basewid:alt ...
+ *   mdeffile <path>                 (driver: load the `mdefdump` file)                            -> mdef2 ok
+ *   nearrow <b> <pos>               bin_mdef_phone_id_nearest(b, l, r, pos) for all l, r          -> n <pid>...
+ *   near <b> <l> <r> <pos>          one lookup and its pid2ssid                                   -> n <pid> <ssid>
+ *   tabs                            every written ldiph_lc / lrdiph_rc / rssid row                -> t L<b>,<r>:… S<b>:… R<b>,<l>:ssid/cimap
+ *   intern <word>                   dict2pid_internal for the word-internal positions             -> i <ssid>...
  *   d2p                             boundary tables of every word vs bin_mdef_phone_id_nearest    -> d2p ok <n> | d2p bad ...
  *   fsg <word>...                   linear grammar over the words, decoder_set_fsg                -> g <rc>
  *   alts <word>                     fsg with the word; number of alternates fsg_search added      -> g <rc> <nalt>
@@ -42,7 +48,7 @@
 static decoder_t *dec;
 static dict_t *sdict; /* standalone dictionary (dict mode) */
 static bin_mdef_t *smdef; /* mdef for dict mode */
-static int nocase, mode_dec;
+static int nocase, mode_dec, tol_l, tol_r;
 static char dictpath[1024], fdictpath[1024];
 static const char *modeldir, *rawpath;
 static FILE *dictfh, *fdictfh;
@@ -104,10 +110,10 @@ static int d2p_word(dict2pid_t *d2p, dict_t *d, bin_mdef_t *m, int w, char *why,
             int p = bin_mdef_phone_id_nearest(m, b, l, r2, WORD_POSN_BEGIN);
             int got = d2p->ldiph_lc[b][r2][l];
             if (got != bin_mdef_pid2ssid(m, p)) {
-                /* populate_lrdiph() also writes ldiph_lc[b][SIL][*] with the single-phone-word triphones;
-                   either value is a valid senone sequence of the model, which is all "usable" needs */
+                /* D61: populate_lrdiph() of the pinned tree also wrote ldiph_lc[b][SIL][*] with the single-phone-word
+                   triphones; tolerated only while the current source still does (C16_D2P_TOL, from gen_consts) */
                 int p1 = bin_mdef_phone_id_nearest(m, b, l, r2, WORD_POSN_SINGLE);
-                if (!(r2 == sil && got == bin_mdef_pid2ssid(m, p1))) {
+                if (!(tol_l && r2 == sil && got == bin_mdef_pid2ssid(m, p1))) {
                     snprintf(why, whylen, "w%d ldiph_lc[%d][%d][%d]=%d want %d", w, b, r2, l, got, bin_mdef_pid2ssid(m, p));
                     return -1;
                 }
@@ -123,7 +129,7 @@ static int d2p_word(dict2pid_t *d2p, dict_t *d, bin_mdef_t *m, int w, char *why,
             if (j < 0 || j >= rs->n_ssid || rs->ssid[j] != bin_mdef_pid2ssid(m, p)) {
                 int p1 = bin_mdef_phone_id_nearest(m, e, lc, r, WORD_POSN_SINGLE);
                 /* same remark: dict2pid_build seeds rdiph_rc[b][SIL][*] from single-phone words */
-                if (!(lc == sil && j >= 0 && j < rs->n_ssid && rs->ssid[j] == bin_mdef_pid2ssid(m, p1))) {
+                if (!(tol_r && lc == sil && j >= 0 && j < rs->n_ssid && rs->ssid[j] == bin_mdef_pid2ssid(m, p1))) {
                     snprintf(why, whylen, "w%d rssid[%d][%d] rc %d -> %d want %d", w, e, lc, r,
                              (j >= 0 && j < rs->n_ssid) ? rs->ssid[j] : -1, bin_mdef_pid2ssid(m, p));
                     return -1;
@@ -205,11 +211,43 @@ int main(int argc, char **argv)
         bin_mdef_free(smdef);
         return 0;
     }
+    if (argc >= 4 && !strcmp(argv[1], "mdefdump")) {
+        /* what bin_mdef_phone_id / pid2ssid read of the model: raw cd_tree, filler flags, silence phone, ssid per phone */
+        char path[1024];
+        FILE *fh;
+        int i, ok = 1;
+        err_set_loglevel(ERR_FATAL);
+        snprintf(path, sizeof(path), "%s/mdef", argv[2]);
+        smdef = bin_mdef_read(NULL, path);
+        if (!smdef || !(fh = fopen(argv[3], "w"))) return 3;
+        fprintf(fh, "hdr %d %d %d %d\n", smdef->n_ciphone, smdef->sil, smdef->n_phone, smdef->n_cd_tree);
+        fprintf(fh, "filler");
+        for (i = 0; i < smdef->n_ciphone; i++) fprintf(fh, " %d", smdef->phone[i].info.ci.filler ? 1 : 0);
+        fprintf(fh, "\ntree");
+        for (i = 0; i < smdef->n_cd_tree; i++) {
+            cd_tree_t *nd = smdef->cd_tree + i;
+            fprintf(fh, " %d,%d,%d", nd->ctx, nd->n_down, nd->c.pid);
+            /* a leaf names a phone of the table (or -1); an inner node points inside the tree */
+            if (nd->n_down == 0 ? (nd->c.pid < -1 || nd->c.pid >= smdef->n_phone)
+                                : (nd->c.down < 0 || nd->c.down + nd->n_down > smdef->n_cd_tree || nd->n_down < 0))
+                ok = 0;
+        }
+        fprintf(fh, "\nssid");
+        for (i = 0; i < smdef->n_phone; i++) fprintf(fh, " %d", smdef->phone[i].ssid);
+        fprintf(fh, "\n");
+        fclose(fh);
+        printf("mdefdump %s n_ci=%d sil=%d n_phone=%d n_cd_tree=%d\n", ok ? "ok" : "INVALID-TREE", smdef->n_ciphone, smdef->sil,
+               smdef->n_phone, smdef->n_cd_tree);
+        bin_mdef_free(smdef);
+        return ok ? 0 : 4;
+    }
     if (argc < 4) { fprintf(stderr, "usage: h_c16 <scratch> <modeldir> <raw>\n"); return 2; }
     snprintf(dictpath, sizeof(dictpath), "%s/c16-%d.dict", argv[1], (int)getpid());
     snprintf(fdictpath, sizeof(fdictpath), "%s/c16-%d.fdict", argv[1], (int)getpid());
     modeldir = argv[2];
     rawpath = argv[3];
+    tol_l = getenv("C16_D2P_TOL") && strchr(getenv("C16_D2P_TOL"), 'L');
+    tol_r = getenv("C16_D2P_TOL") && strchr(getenv("C16_D2P_TOL"), 'R');
     err_set_loglevel(ERR_FATAL);
     {
         char path[1024];
@@ -230,6 +268,19 @@ int main(int argc, char **argv)
                 free(s);
             }
             printf(ok ? "mdef ok\n" : "mdef MISMATCH\n");
+        } else if (n == 2 && !strcmp(w[0], "mdeffile")) {
+            printf("mdef2 ok\n"); /* the file was written by `h_c16 mdefdump` from the same model; the driver loads it */
+        } else if (n == 3 && !strcmp(w[0], "nearrow")) {
+            /* bin_mdef_phone_id_nearest(b, l, r, pos) for all l, r */
+            int b = atoi(w[1]), pos = atoi(w[2]), l, r, nci = bin_mdef_n_ciphone(smdef);
+            printf("n");
+            for (l = 0; l < nci; l++)
+                for (r = 0; r < nci; r++)
+                    printf(" %d", bin_mdef_phone_id_nearest(smdef, b, l, r, (word_posn_t)pos));
+            printf("\n");
+        } else if (n == 5 && !strcmp(w[0], "near")) {
+            int p = bin_mdef_phone_id_nearest(smdef, atoi(w[1]), atoi(w[2]), atoi(w[3]), (word_posn_t)atoi(w[4]));
+            printf("n %d %d\n", p, bin_mdef_pid2ssid(smdef, p));
         } else if (n == 3 && !strcmp(w[0], "begin")) {
             close_all();
             nocase = atoi(w[2]);
@@ -363,6 +414,44 @@ int main(int argc, char **argv)
             for (i = 0; i < d->n_word && !bad; i++)
                 if (d2p_word(dec->d2p, d, dec->acmod->mdef, i, why, sizeof(why)) < 0) bad = 1;
             if (bad) printf("d2p bad %s\n", why); else printf("d2p ok\n");
+        } else if (n == 1 && !strcmp(w[0], "tabs") && dec) {
+            /* every written row of the tables the searches read, in key order */
+            dict2pid_t *t = dec->d2p;
+            int nci = bin_mdef_n_ciphone(dec->acmod->mdef), b, l, r, k;
+            printf("t");
+            for (b = 0; b < nci; b++)
+                for (r = 0; r < nci; r++) {
+                    int any = 0;
+                    for (l = 0; l < nci; l++) if (t->ldiph_lc[b][r][l] != BAD_S3SSID) any = 1;
+                    if (!any) continue;
+                    printf(" L%d,%d:", b, r);
+                    for (l = 0; l < nci; l++) printf("%s%d", l ? "." : "", t->ldiph_lc[b][r][l]);
+                }
+            for (b = 0; b < nci; b++) {
+                int any = 0;
+                for (l = 0; l < nci; l++) for (r = 0; r < nci; r++) if (t->lrdiph_rc[b][l][r] != BAD_S3SSID) any = 1;
+                if (!any) continue;
+                printf(" S%d:", b);
+                for (l = 0; l < nci; l++) for (r = 0; r < nci; r++) printf("%s%d", (l || r) ? "." : "", t->lrdiph_rc[b][l][r]);
+            }
+            for (b = 0; b < nci; b++)
+                for (l = 0; l < nci; l++) {
+                    xwdssid_t *x = &t->rssid[b][l];
+                    if (x->n_ssid == 0) continue;
+                    printf(" R%d,%d:", b, l);
+                    for (k = 0; k < x->n_ssid; k++) printf("%s%d", k ? "." : "", x->ssid[k]);
+                    printf("/");
+                    for (k = 0; k < nci; k++) printf("%s%d", k ? "." : "", x->cimap[k]);
+                }
+            printf("\n");
+        } else if (n == 2 && !strcmp(w[0], "intern") && dec) {
+            unsigned char *a = vf_parse_hex(w[1], &len);
+            int id = dict_wordid(dec->dict, (char *)a), k;
+            printf("i");
+            if (id >= 0)
+                for (k = 1; k + 1 < dict_pronlen(dec->dict, id); k++) printf(" %d", dict2pid_internal(dec->d2p, id, k));
+            printf("\n");
+            free(a);
         } else if (n >= 2 && !strcmp(w[0], "fsg") && dec) {
             printf("g "); fflush(stdout);
             set_linear_fsg(w + 1, n - 1, 0);
